@@ -2,11 +2,12 @@ import AscentVerif.Generated.ConstProp
 import AscentVerif.Generated.Product
 import AscentVerif.Generated.OptionLat
 import AscentVerif.Generated.Versions
+import AscentVerif.Generated.Dual
 /-!
 # Tie D: the regenerated table models equal the hand-written ones
 
 `tools/rs2lean.py` re-reads the Rust sources (`constant_propagation.rs`, `product.rs`, `lattice.rs`,
-`ascent_mir.rs`) on every run and writes `AscentVerif/Generated/*.lean`.  The theorems below state
+`ascent_mir.rs`, `dual.rs`) on every run and writes `AscentVerif/Generated/*.lean`.  The theorems below state
 that every regenerated function is *equal* to its hand-written counterpart in `Model/Lattice.lean` /
 `Model/Engine.lean`; a changed match arm (or constant, or statement order) in the Rust source changes the
 generated definition and breaks the corresponding proof.
@@ -68,6 +69,37 @@ theorem versionsBase_eq (n : Nat) : Generated.versions_base n = Engine.versionsB
   | succ n ih =>
     simp only [Generated.versions_base, Engine.versionsBase, ih, replicate_succ_set_last]
 
+/-! ## `Dual<T>`
+
+The generated functions take the fields `self.0` / `other.0` (Rust: `Dual<T>(pub T)`); which of the two is the
+receiver and which the argument of the delegated call, the delegated method, and the `Dual(..)` wrapper are
+read from the Rust text.  For the `&mut self` functions the generated value is (the new `self.0`, the flag).
+`impl Ord for Dual<T>` is the model's `LinOrd (DualLin α)`. -/
+
+theorem dual_pcmp_eq {α : Type} [Lat α] (a b : Dual α) :
+    Generated.Dual.partial_cmp a.val b.val = Lat.pcmp a b := rfl
+
+theorem dual_cmp_eq {α : Type} [LinOrd α] (a b : DualLin α) :
+    Generated.Dual.cmp a.val b.val = LinOrd.cmp a b := rfl
+
+theorem dual_meet_eq {α : Type} [Lat α] (a b : Dual α) :
+    Generated.Dual.meet a.val b.val = Lat.meet a b := rfl
+
+theorem dual_join_eq {α : Type} [Lat α] (a b : Dual α) :
+    Generated.Dual.join a.val b.val = Lat.join a b := rfl
+
+theorem dual_meetMut_eq {α : Type} [Lat α] (a b : Dual α) :
+    Lat.meetMut a b
+      = (⟨(Generated.Dual.meet_mut a.val b.val).1⟩, (Generated.Dual.meet_mut a.val b.val).2) := rfl
+
+theorem dual_joinMut_eq {α : Type} [Lat α] (a b : Dual α) :
+    Lat.joinMut a b
+      = (⟨(Generated.Dual.join_mut a.val b.val).1⟩, (Generated.Dual.join_mut a.val b.val).2) := rfl
+
+theorem dual_top_eq {α : Type} [BLat α] : (Generated.Dual.top : Dual α) = BLat.top := rfl
+
+theorem dual_bottom_eq {α : Type} [BLat α] : (Generated.Dual.bottom : Dual α) = BLat.bottom := rfl
+
 end AscentVerif.TieD
 
 #print axioms AscentVerif.TieD.constProp_pcmp_eq
@@ -79,3 +111,11 @@ end AscentVerif.TieD
 #print axioms AscentVerif.TieD.option_meetMut_eq
 #print axioms AscentVerif.TieD.option_joinMut_eq
 #print axioms AscentVerif.TieD.versionsBase_eq
+#print axioms AscentVerif.TieD.dual_pcmp_eq
+#print axioms AscentVerif.TieD.dual_cmp_eq
+#print axioms AscentVerif.TieD.dual_meet_eq
+#print axioms AscentVerif.TieD.dual_join_eq
+#print axioms AscentVerif.TieD.dual_meetMut_eq
+#print axioms AscentVerif.TieD.dual_joinMut_eq
+#print axioms AscentVerif.TieD.dual_top_eq
+#print axioms AscentVerif.TieD.dual_bottom_eq
